@@ -27,8 +27,11 @@ type MerklePatriciaTrie struct {
 	ChangeCollector ChangeCollectorI
 	Version         Sequence
 	missingNodeKeys []Key
-	cache           *statecache.TransactionCache
-	deleteNodes     []Node // delete nodes that added when sync from remote
+	// missingNodeKeysMutex guards missingNodeKeys: lookups and iterations append
+	// to it while they hold only the read lock of mutex
+	missingNodeKeysMutex sync.Mutex
+	cache                *statecache.TransactionCache
+	deleteNodes          []Node // delete nodes that added when sync from remote
 }
 
 /*NewMerklePatriciaTrie - create a new patricia merkle trie */
@@ -76,13 +79,17 @@ func (mpt *MerklePatriciaTrie) getNode(key Key) (n Node, err error) {
 }
 
 func (mpt *MerklePatriciaTrie) addMissingNodeKeys(key Key) {
+	mpt.missingNodeKeysMutex.Lock()
 	mpt.missingNodeKeys = append(mpt.missingNodeKeys, key)
+	mpt.missingNodeKeysMutex.Unlock()
 }
 
 func (mpt *MerklePatriciaTrie) GetMissingNodeKeys() []Key {
 	mpt.mutex.RLock()
+	mpt.missingNodeKeysMutex.Lock()
 	keys := make([]Key, len(mpt.missingNodeKeys))
 	copy(keys, mpt.missingNodeKeys)
+	mpt.missingNodeKeysMutex.Unlock()
 	mpt.mutex.RUnlock()
 	return keys
 }
